@@ -14,3 +14,4 @@ import Lace.Props.C14
 #print axioms Lace.C14.swapSeparators_ok
 #print axioms Lace.C14.commandTable_unambiguous
 #print axioms Lace.C14.parse_offsets_in_range
+#print axioms Lace.C14.session_eq_script
